@@ -17,10 +17,12 @@ This module contains functions for loading and saving Strawberry Fields
 code.
 """
 # pylint: disable=protected-access,too-many-nested-blocks
+import re
 from decimal import Decimal
 from typing import Iterable, List, Sequence
 
 import numpy as np
+import sympy
 
 import xir
 
@@ -203,6 +205,10 @@ def from_xir_to_tdm(xir_prog: xir.Program) -> TDMProgram:
                             params.append(np.array(_listr(param)))
                         elif isinstance(param, str) and is_ptype(param):
                             params.append(p[int(param[1:])])
+                        elif isinstance(param, str) and re.search(r"\bp\d+\b", param):
+                            # an expression of loop variables, e.g. "-p0" written for a daggered gate
+                            loop_vars = {f"p{i}": p[i] for i in range(len(args))}
+                            params.append(sympy.sympify(param, locals=loop_vars))
                         else:
                             params.append(param)
                     params = sfpar.par_convert(params, prog)
